@@ -364,6 +364,9 @@ def make_model(kind):
     dims = 3 if kind == "gauss3" else 2
     corner = kind == "corner2"
     lo, hi = (0.0, 1.0) if corner else (-5.0, 5.0)
+    if kind.startswith("box:"):
+        # box:lo1,hi1,lo2,hi2 - uniform prior on the box, Gaussian likelihood at its centre, sigma = width / 10
+        return make_box_model([float(v) for v in kind[4:].split(",")])
 
     class G(Model):
         """gauss2 / gauss3: unit Gaussian in [-5, 5]^d.  corner2: uniform prior on the unit square, likelihood
@@ -406,6 +409,47 @@ def make_model(kind):
             return y
 
     return G()
+
+
+def make_box_model(b):
+    import numpy as np
+    from nessai.model import Model
+
+    class B(Model):
+        def __init__(self):
+            self.names = ["x", "y"]
+            self.bounds = {"x": [b[0], b[1]], "y": [b[2], b[3]]}
+            self.points = 0
+            self.cap = None
+            self.lo = {"x": b[0], "y": b[2]}
+            self.hi = {"x": b[1], "y": b[3]}
+
+        def log_prior(self, x):
+            return np.log(self.in_bounds(x), dtype=float) - np.log((b[1] - b[0]) * (b[3] - b[2]))
+
+        def log_likelihood(self, x):
+            self.points += int(np.size(x))
+            if self.cap is not None and self.points > self.cap:
+                raise Cap(f"likelihood-evaluation cap {self.cap} exceeded")
+            s = 0.0
+            for n in self.names:
+                c, w = 0.5 * (self.lo[n] + self.hi[n]), (self.hi[n] - self.lo[n]) / 10.0
+                s = s + ((x[n] - c) / w) ** 2
+            return -0.5 * s
+
+        def to_unit_hypercube(self, x):
+            y = x.copy()
+            for n in self.names:
+                y[n] = (x[n] - self.lo[n]) / (self.hi[n] - self.lo[n])
+            return y
+
+        def from_unit_hypercube(self, x):
+            y = x.copy()
+            for n in self.names:
+                y[n] = (self.hi[n] - self.lo[n]) * x[n] + self.lo[n]
+            return y
+
+    return B()
 
 
 def nessai_frames(tb):
@@ -572,7 +616,12 @@ def run_one(job, outdir):
                     r["final_logZ"] = float(ns.final_log_evidence)
             names = model.names
             r["post_finite"] = bool(all(np.isfinite(post[n]).all() for n in names) and np.isfinite(post["logL"]).all())
-            r["post_in_bounds"] = bool(all(((post[n] >= model.lo) & (post[n] <= model.hi)).all() for n in names))
+            lo_ = model.lo if isinstance(model.lo, dict) else {n: model.lo for n in names}
+            hi_ = model.hi if isinstance(model.hi, dict) else {n: model.hi for n in names}
+            r["post_in_bounds"] = bool(all(((post[n] >= lo_[n]) & (post[n] <= hi_[n])).all() for n in names))
+            prop = getattr(ns, "_flow_proposal", None)
+            if prop is not None:
+                r["prime_prior"] = bool(getattr(prop, "use_x_prime_prior", False))
             res["result"] = r
         except BaseException as e:
             res["status"] = "raised"
